@@ -270,3 +270,51 @@ canary('c19-regsend-by-pid', 'C19', NODE, """                    && let Some(pid
                     && let Some(handle) = registry.get(&pid).await
                 {
                     handle.send(Message::Regular { from: None, body: OwnedTerm::Atom(name.clone()) }).await?; let _ = body;""", 'route_message:RegSend')
+
+# ---- C09 ----
+FRAG = 'crates/edp_client/src/fragmentation.rs'
+canary('c09-dup-counted', 'C09', FRAG, """                    if self.fragments[idx].is_some() {
+                        trace!("Received duplicate fragment {} - ignoring", fragment_id);
+                    } else {
+                        self.fragments[idx] = Some(data);
+                        self.received_count += 1;
+                    }""", """                    self.fragments[idx] = Some(data);
+                    self.received_count += 1;""", 'count-without-empty-test')
+canary('c09-no-transfer', 'C09', FRAG, """                let pending: Vec<_> = self.pending_fragments.drain().collect();
+                for (fragment_id, data) in pending {""", """                let pending: Vec<(u64, Vec<u8>)> = Vec::new();
+                for (fragment_id, data) in pending {""", 'no-transfer')
+canary('c09-cleanup-uncalled', 'C09', CONN, "            self.fragment_assembler.cleanup_expired();\n", "", 'expiry-unreachable')
+canary('c09-index-guard', 'C09', FRAG, "                if idx < self.fragments.len() {\n                    if self.fragments[idx].is_some() {", "                if idx <= self.fragments.len() {\n                    if self.fragments[idx].is_some() {", 'PANIC')
+canary('c09-wrong-key', 'C09', FRAG, """            msg.add_fragment(fragment_id, payload);
+            self.pending.insert(sequence_id, msg);
+        }
+
+        None""", """            msg.add_fragment(fragment_id, payload);
+            self.pending.insert(SequenceId(fragment_id), msg);
+        }
+
+        None""", 'pending.insert:key')
+canary('c09-complete-ge', 'C09', FRAG, ".map(|count| self.received_count == count.get() as usize)", ".map(|count| self.received_count + 1 >= count.get() as usize)", 'is_complete')
+canary('c09-reassemble-by-ref', 'C09', FRAG, "    fn reassemble(mut self) -> Option<Vec<u8>> {", "    fn reassemble(&mut self) -> Option<Vec<u8>> {", 'reassemble', more=[
+    (FRAG, "        for fragment in self.fragments.into_iter().flatten() {", "        for fragment in std::mem::take(&mut self.fragments).into_iter().flatten() {"),
+    (FRAG, """                if let Some(msg) = self.pending.remove(&sequence_id) {
+                    return msg.reassemble();
+                }
+            }
+            None
+        } else {""", """                return msg.reassemble();
+            }
+            None
+        } else {"""),
+    (FRAG, """                msg.reassemble()
+            } else {""", """                let mut msg = msg; msg.reassemble()
+            } else {"""),
+    (FRAG, """                if let Some(msg) = self.pending.remove(&sequence_id) {
+                    return msg.reassemble();
+                }
+            }
+        } else {""", """                if let Some(mut msg) = self.pending.remove(&sequence_id) {
+                    return msg.reassemble();
+                }
+            }
+        } else {""")])
